@@ -426,7 +426,7 @@ theorem sitePath_ne_nil {proj : Project} {rank : List Nat} (wf : WFacts proj ran
   have := (wf.parentOk S.1 h.1).1
   simp [sitePath, this]
 
-theorem visitImportFrom_step {proj : Project} {rank : List Nat} (wf : WFacts proj rank) {pm : St → Nat → St} {k : Nat}
+theorem visitImportFrom_step {proj : Project} {rank : List Nat} (wf : WFacts proj rank) (nr : NoReexpFacts proj) {pm : St → Nat → St} {k : Nat}
     (hpm : PmOk proj pm) (hg : PmGood proj pm k) {s : St} (hI : PdInv proj s)
     {mod ctx : Nat} {S : Site} {full : List Stmt} (hc : Ctx proj s mod ctx S full) {lvl : Nat} {M : Path} {n : Name}
     {a : Option Name} (hst : Stmt.importFrom lvl M n a ∈ full) (hb : s.bad = false) (hk : cnt s ≤ k) :
@@ -469,7 +469,7 @@ theorem visitImportFrom_step {proj : Project} {rank : List Nat} (wf : WFacts pro
         obtain ⟨hS2, hall⟩ := exports_sub hI1 hc he1 _ hmem
         obtain ⟨m, cp⟩ := S
         simp only at hS2 hS1; subst hS2; subst hS1
-        exact wf.noreexpFrom hc.body hst hall
+        exact nr.noreexpFrom hc.body hst hall
     rw [hre_noop hnox]
     simp only [Bool.false_eq_true, if_false]
     exact ⟨by rw [setAlias_bad]; exact hb2, by
@@ -520,7 +520,7 @@ theorem starFold_step {proj : Project} {rank : List Nat} (wf : WFacts proj rank)
     obtain ⟨hb2, hf2⟩ := starFold_step wf hst hT ht hu xs _ hI1 (hc.ext he1) hx' hb1
     exact ⟨hb2, by simpa using hf1.trans he1.ps hf2⟩
 
-theorem visitImportStar_step {proj : Project} {rank : List Nat} (wf : WFacts proj rank) {pm : St → Nat → St} {k : Nat}
+theorem visitImportStar_step {proj : Project} {rank : List Nat} (wf : WFacts proj rank) (nr : NoReexpFacts proj) {pm : St → Nat → St} {k : Nat}
     (hpm : PmOk proj pm) (hg : PmGood proj pm k) {s : St} (hI : PdInv proj s)
     {mod ctx : Nat} {S : Site} {full : List Stmt} (hc : Ctx proj s mod ctx S full) {lvl : Nat} {M : Path}
     (hst : Stmt.importStar lvl M ∈ full) (hb : s.bad = false) (hk : cnt s ≤ k) :
@@ -545,7 +545,7 @@ theorem visitImportStar_step {proj : Project} {rank : List Nat} (wf : WFacts pro
         obtain ⟨hS2, hall⟩ := exports_sub hI1 hc he1 y (by rw [hce]; exact List.mem_cons_self ..)
         obtain ⟨m, cp⟩ := S
         simp only at hS2 hS1; subst hS2; subst hS1
-        rw [wf.noreexpStar hc.body hst] at hall; cases hall
+        rw [nr.noreexpStar hc.body hst] at hall; cases hall
     rw [hex]
     have hnames : ∀ x ∈ starNames (getProcessedModule pm s T).1 t,
         starOk proj t x ∧ (x ∈ allNames (bodyOf proj t) ∨ HasEntry (getProcessedModule pm s T).1 t x) := by
@@ -701,7 +701,7 @@ theorem enterClass_new {s : St} {ctx : Nat} {n : Name} {bs : List Path} {pp : Pa
   exact objsAfterAdd_get_new (path_lt hp)
 
 mutual
-theorem visitStmt_step {proj : Project} {rank : List Nat} (wf : WFacts proj rank) {pm : St → Nat → St} {k : Nat}
+theorem visitStmt_step {proj : Project} {rank : List Nat} (wf : WFacts proj rank) (nr : NoReexpFacts proj) {pm : St → Nat → St} {k : Nat}
     (hpm : PmOk proj pm) (hg : PmGood proj pm k) {mod : Nat} :
     ∀ (st : Stmt) (ctx : Nat) (s : St) (S : Site) (full : List Stmt), PdInv proj s → Ctx proj s mod ctx S full →
       st ∈ full → s.bad = false → cnt s ≤ k →
@@ -718,10 +718,10 @@ theorem visitStmt_step {proj : Project} {rank : List Nat} (wf : WFacts proj rank
       | cons h r => exact ⟨by rw [setAlias_bad]; exact hb, setAlias_frame proj _ _ s ctx h [h]⟩
   | .importFrom lvl M n a, ctx, s, S, full, hI, hc, hst, hb, hk, _ => by
     simp only [visitStmt, Stmt.defName, Option.toList]
-    exact visitImportFrom_step wf hpm hg hI hc hst hb hk
+    exact visitImportFrom_step wf nr hpm hg hI hc hst hb hk
   | .importStar lvl M, ctx, s, S, full, hI, hc, hst, hb, hk, _ => by
     simp only [visitStmt, Stmt.defName, Option.toList]
-    exact visitImportStar_step wf hpm hg hI hc hst hb hk
+    exact visitImportStar_step wf nr hpm hg hI hc hst hb hk
   | .classDef n bs body, ctx, s, S, full, hI, hc, hst, hb, hk, hp => by
     simp only [visitStmt, Stmt.defName, Option.toList]
     obtain ⟨⟨hb1, hf1⟩, _⟩ := enterClass_step wf hI hc hst hb (fun o ho => hp o ho n rfl)
@@ -731,7 +731,7 @@ theorem visitStmt_step {proj : Project} {rank : List Nat} (wf : WFacts proj rank
     have hpend : Pending (enterClass ctx n bs s) s.reg.objs.length body := by
       intro o ho st' _ n' _
       rw [hnew] at ho; injection ho with ho; subst ho; rfl
-    obtain ⟨hb2, hf2⟩ := visitStmts_step wf hpm hg body s.reg.objs.length _ _ body [] hI1 hc1 (by simp) hb1 hk1 hpend
+    obtain ⟨hb2, hf2⟩ := visitStmts_step wf nr hpm hg body s.reg.objs.length _ _ body [] hI1 hc1 (by simp) hb1 hk1 hpend
     refine ⟨hb2, ?_⟩
     intro i o ho hpr
     obtain ⟨o1, ho1, e1, k1⟩ := hf1 i o ho hpr
@@ -750,7 +750,7 @@ theorem visitStmt_step {proj : Project} {rank : List Nat} (wf : WFacts proj rank
   | .allAssign l, ctx, s, S, full, _, _, _, hb, _, _ => by
     simp only [visitStmt, Stmt.defName, Option.toList]
     exact ⟨hb, FrameX.refl _ _ _ _⟩
-theorem visitStmts_step {proj : Project} {rank : List Nat} (wf : WFacts proj rank) {pm : St → Nat → St} {k : Nat}
+theorem visitStmts_step {proj : Project} {rank : List Nat} (wf : WFacts proj rank) (nr : NoReexpFacts proj) {pm : St → Nat → St} {k : Nat}
     (hpm : PmOk proj pm) (hg : PmGood proj pm k) {mod : Nat} :
     ∀ (sts : List Stmt) (ctx : Nat) (s : St) (S : Site) (full pre : List Stmt), PdInv proj s →
       Ctx proj s mod ctx S full → full = pre ++ sts → s.bad = false → cnt s ≤ k → Pending s ctx sts →
@@ -760,9 +760,9 @@ theorem visitStmts_step {proj : Project} {rank : List Nat} (wf : WFacts proj ran
   | st :: rest, ctx, s, S, full, pre, hI, hc, hfull, hb, hk, hp => by
     simp only [visitStmts]
     have hmem : st ∈ full := by rw [hfull]; simp
-    obtain ⟨hb1, hf1⟩ := visitStmt_step wf hpm hg st ctx s S full hI hc hmem hb hk
+    obtain ⟨hb1, hf1⟩ := visitStmt_step wf nr hpm hg st ctx s S full hI hc hmem hb hk
       (fun o ho n hd => hp o ho st (List.mem_cons_self ..) n hd)
-    obtain ⟨hI1, he1, _⟩ := visitStmt_ok wf hpm st ctx s S full hI hc hmem hb1
+    obtain ⟨hI1, he1, _⟩ := visitStmt_ok wf nr hpm st ctx s S full hI hc hmem hb1
     have hk1 := Nat.le_trans (cnt_ext hI hI1 he1) hk
     have hpend1 : Pending (visitStmt pm mod ctx st s) ctx rest := by
       intro o1 ho1 st' hst' n' hd'
@@ -778,7 +778,7 @@ theorem visitStmts_step {proj : Project} {rank : List Nat} (wf : WFacts proj ran
           simp only [hd, Option.toList, List.mem_singleton] at hin
           subst hin
           exact later_def_ne wf hc.body hfull hd hst' hd'
-    obtain ⟨hb2, hf2⟩ := visitStmts_step wf hpm hg rest ctx _ S full (pre ++ [st]) hI1 (hc.ext he1)
+    obtain ⟨hb2, hf2⟩ := visitStmts_step wf nr hpm hg rest ctx _ S full (pre ++ [st]) hI1 (hc.ext he1)
       (by rw [hfull]; simp) hb1 hk1 hpend1
     exact ⟨hb2, by
       have := hf1.trans he1.ps hf2
@@ -865,20 +865,20 @@ theorem cnt_pos {s : St} {m : Nat} (h : getPs s m = .unprocessed) : 0 < cnt s :=
   have he : s.ps[m] = .unprocessed := by rw [← getPs_eq_getElem hm]; exact h
   exact List.count_pos_iff.2 (by rw [← he]; exact List.getElem_mem hm)
 
-theorem processModule_good {proj : Project} {rank : List Nat} (wf : WFacts proj rank) :
+theorem processModule_good {proj : Project} {rank : List Nat} (wf : WFacts proj rank) (nr : NoReexpFacts proj) :
     ∀ f, PmGood proj (processModule proj f) f
   | 0 => fun s t _ _ _ hu hk => by have := cnt_pos hu; omega
   | f+1 => by
     intro s m hb hI hm hu hk
-    have ih := processModule_good wf f
-    have hok := processModule_ok wf f
+    have ih := processModule_good wf nr f
+    have hok := processModule_ok wf nr f
     have hmd : proj[m]? = some proj[m] := by simp [hm]
     obtain ⟨hI2, hc2, hps2⟩ := processModule_start hI hm hu
     have hcnt := cnt_start (al := s.alls.set m (lastAll proj[m].body)) hu
     have hpend : Pending { s with ps := s.ps.set m .processing, alls := s.alls.set m (lastAll proj[m].body) } m proj[m].body := by
       intro o ho st hst n hd
       exact unstarted_pending wf hI hm hu ho (by rw [bodyOf_eq hmd]; exact hst) hd
-    obtain ⟨hb3, hf3⟩ := visitStmts_step wf hok ih proj[m].body m _ (m, []) proj[m].body [] hI2 hc2 (by simp) hb
+    obtain ⟨hb3, hf3⟩ := visitStmts_step wf nr hok ih proj[m].body m _ (m, []) proj[m].body [] hI2 hc2 (by simp) hb
       (by omega) hpend
     have hne : ¬ (getPs s m ≠ .unprocessed) := by simp [hu]
     simp only [processModule, hne, if_false, hmd]
@@ -891,7 +891,7 @@ theorem processModule_good {proj : Project} {rank : List Nat} (wf : WFacts proj 
     obtain ⟨o3, ho3, e3, _⟩ := hf3 i o ho hpr2
     exact ⟨o3, ho3, fun _ => e3 (by intro h; injection h with h; exact him h), fun h => by cases h⟩
 
-theorem process_clean {proj : Project} {rank : List Nat} (wf : WFacts proj rank) :
+theorem process_clean {proj : Project} {rank : List Nat} (wf : WFacts proj rank) (nr : NoReexpFacts proj) :
     ∀ (order : List Nat) (s : St), PdInv proj s → s.bad = false → (process proj order s).bad = false
   | [], _, _, hb => hb
   | m :: rest, s, hI, hb => by
@@ -903,17 +903,18 @@ theorem process_clean {proj : Project} {rank : List Nat} (wf : WFacts proj rank)
         unfold cnt
         have := List.count_le_length (a := PState.unprocessed) (l := s.ps)
         rw [hI.lens.1] at this; omega
-      obtain ⟨hb1, _⟩ := processModule_good wf (proj.length + 1) s m hb hI hm hu hk
-      obtain ⟨hI1, _, _⟩ := (processModule_ok wf (proj.length + 1)).2 s m hb1 hI hm
-      exact process_clean wf rest _ hI1 hb1
+      obtain ⟨hb1, _⟩ := processModule_good wf nr (proj.length + 1) s m hb hI hm hu hk
+      obtain ⟨hI1, _, _⟩ := (processModule_ok wf nr (proj.length + 1)).2 s m hb1 hI hm
+      exact process_clean wf nr rest _ hI1 hb1
     · simp only [hu, if_false]
-      exact process_clean wf rest s hI hb
+      exact process_clean wf nr rest s hI hb
 
 /-- **a well-formed project is analysed cleanly**, in whatever order the modules are taken -/
 theorem run_clean {proj : Project} {rank : List Nat} (hwf : WF proj rank = true) (order : List Nat) :
     (run proj order).bad = false := by
   have wf := WF.facts hwf
+  have nr := WF.noReexp hwf
   obtain ⟨hb0, hI0, _⟩ := initSt_ok wf
-  exact process_clean wf order _ hI0 hb0
+  exact process_clean wf nr order _ hI0 hb0
 
 end Imports
